@@ -384,6 +384,11 @@ func TestC19EndToEnd(t *testing.T) {
 	for _, pr := range hashCollidingKeys() {
 		keys = append(keys, pr[0], pr[1])
 	}
+	// keys with the punctuation other proxies give a meaning to (hash tags,
+	// namespaces): here the node is a function of the whole key
+	for i := 0; i < 40; i++ {
+		keys = append(keys, fmt.Sprintf("{user:%d}:profile", i), fmt.Sprintf("a{b%d}c", i), fmt.Sprintf("ns:%d|{}", i))
+	}
 	orders := permutations(3)
 	for wi, wo := range orders {
 		hw, err := cluster.NewHandler(permuted(addrs, wo), "w")
@@ -408,10 +413,15 @@ func TestC19EndToEnd(t *testing.T) {
 				if ri%2 == 1 { // every other reader asks in the opposite order
 					k = keys[len(keys)-1-x]
 				}
-				res, _ := execHandler(hr, wire.Cmd{Kind: wire.Get, Keys: []string{k}}, 0)
+				// every third read is a gete: which command asks must not matter either
+				kind := wire.Get
+				if (x+ri)%3 == 2 {
+					kind = wire.GetE
+				}
+				res, _ := execHandler(hr, wire.Cmd{Kind: kind, Keys: []string{k}}, 0)
 				if res.Err != nil || res.Hits[0] == nil || string(res.Hits[0].Value) != "v-"+k || res.Hits[0].Flags != 7 {
 					p := rec.Violation("TestC19EndToEnd", map[string]interface{}{"nodes": addrs, "set_order": wo, "get_order": ro, "key": k})
-					t.Fatalf("C19 end to end: key %q set through a handler listing nodes as %v is not found through a handler listing them as %v (nodes %v, two of which share ring point %d): %+v; replay %s", k, permuted(addrs, wo), permuted(addrs, ro), addrs, point, res, p)
+					t.Fatalf("C19 end to end: key %q set through a handler listing nodes as %v is not found by a %s through a handler listing them as %v (nodes %v, two of which share ring point %d): %+v; replay %s", k, permuted(addrs, wo), kind, permuted(addrs, ro), addrs, point, res, p)
 				}
 			}
 			// multi-key gets in which stored keys follow keys that were never stored:
